@@ -386,6 +386,7 @@ func (e *Exec) resetPath() {
 	e.pools = nil
 	e.conds = nil
 	e.globalRnd = nil
+	e.negTimer = nil
 	e.utf8ok = map[*Term]*Term{}
 	e.atomVCs = nil
 	e.probes = nil
